@@ -58,12 +58,12 @@ def bcastOK : List Nat → List Nat → Bool
 def expandAs {α} (ls : List Nat) (m : T α) : Nat → α :=
   fun i => m.data (bcastIdx ls.reverse m.shape.reverse i)
 
-/-- src: functional.py:masked_loss @1744-1749 — the three shape checks, in order, with Python's
+/-- src: functional.py:masked_loss @1754-1759 — the three shape checks, in order, with Python's
     short-circuit `and` (so `loss.shape[1]` is only evaluated when `mask.shape[1] != 1`). -/
 def maskedLossCheck (ls ms : List Nat) : Except String Unit :=
   match ms, ls with
   | m0 :: mrest, l0 :: lrest =>
-    if m0 ≠ 1 ∧ m0 ≠ l0 then .error "err:value:mask-batch" else       -- @1744-1745
+    if m0 ≠ 1 ∧ m0 ≠ l0 then .error "err:value:mask-batch" else       -- @1754-1755
     match mrest with
     | [] => .error "err:index:mask-ndim"                               -- `mask.shape[1]` on 1-d mask
     | m1 :: mtail =>
@@ -71,10 +71,10 @@ def maskedLossCheck (ls ms : List Nat) : Except String Unit :=
         match lrest with
         | [] => .error "err:index:loss-ndim"                           -- `loss.shape[1]` on 1-d loss (IndexError)
         | l1 :: ltail =>
-          if m1 ≠ l1 then .error "err:value:mask-channels"             -- @1746-1747
-          else if mtail ≠ ltail then .error "err:value:mask-spatial"   -- @1748-1749
+          if m1 ≠ l1 then .error "err:value:mask-channels"             -- @1756-1757
+          else if mtail ≠ ltail then .error "err:value:mask-spatial"   -- @1758-1759
           else .ok ()
-      else if mtail ≠ lrest.drop 1 then .error "err:value:mask-spatial" -- @1748-1749
+      else if mtail ≠ lrest.drop 1 then .error "err:value:mask-spatial" -- @1758-1759
       else .ok ()
   | _, _ => .error "err:index:empty-shape"
 
@@ -91,26 +91,26 @@ def lsum : List α → α
   | [] => ((0 : Nat) : α)
   | x :: xs => x + lsum xs
 
-/-- src: functional.py:reduce_loss @1757-1769 on a flattened loss of `n` elements; the mask is
+/-- src: functional.py:reduce_loss @1767-1779 on a flattened loss of `n` elements; the mask is
     already expanded (`mask.expand_as(loss)`).  "none" returns the `n` values, otherwise one value. -/
 def reduceLoss (red : Reduction) (n : Nat) (loss : Nat → α) (mask : Option (Nat → α)) : List α :=
   match red with
-  | .none => (List.range n).map loss                                 -- @1761-1762
+  | .none => (List.range n).map loss                                 -- @1771-1772
   | .mean =>
     match mask with
-    | none => [sumTo n loss / ((n : Nat) : α)]                       -- @1763-1764 `loss.mean()`
-    | some m => [sumTo n loss / sumTo n m]                           -- @1765-1768 `loss.sum() / mask.expand_as(loss).sum()`
-  | .sum => [sumTo n loss]                                           -- @1764 | @1765 `loss.sum()`
+    | none => [sumTo n loss / ((n : Nat) : α)]                       -- @1773-1774 `loss.mean()`
+    | some m => [sumTo n loss / sumTo n m]                           -- @1775-1778 `loss.sum() / mask.expand_as(loss).sum()`
+  | .sum => [sumTo n loss]                                           -- @1774 | @1775 `loss.sum()`
 
-/-- src: functional.py:masked_loss @1731-1754: checks, then `loss.mul(mask)` (broadcast). -/
+/-- src: functional.py:masked_loss @1741-1764: checks, then `loss.mul(mask)` (broadcast). -/
 def maskedLoss (ls : List Nat) (loss : Nat → α) : Option (T α) → Except String (Nat → α)
-  | none => .ok loss                                                   -- @1738-1739
+  | none => .ok loss                                                   -- @1748-1749
   | some m => do
     maskedLossCheck ls m.shape
     if m.shape.length ≠ ls.length then throw "err:unmodelled:broadcast-grows"
-    pure (fun i => loss i * expandAs ls m i)                           -- @1750-1753
+    pure (fun i => loss i * expandAs ls m i)                           -- @1760-1763
 
-/-- core of `ssd_loss` @962-964 and of `elementwise_loss` @1716-1721: pointwise loss `f`,
+/-- core of `ssd_loss` @966-968 and of `elementwise_loss` @1726-1731: pointwise loss `f`,
     optional (expanded) multiplicative mask, reduction. Without a mask `elementwise_loss` hands the
     reduction to torch's own `F.*_loss(reduction=…)`, which is mean/sum of the elementwise values. -/
 def pointwiseCore (f : α → α → α) (red : Reduction) (n : Nat) (x y : Nat → α)
@@ -119,10 +119,10 @@ def pointwiseCore (f : α → α → α) (red : Reduction) (n : Nat) (x y : Nat 
   | none => reduceLoss red n (fun i => f (x i) (y i)) none
   | some w => reduceLoss red n (fun i => f (x i) (y i) * w i) (some w)
 
-/-- `input.sub(target).square()` — ssd_loss @962. -/
+/-- `input.sub(target).square()` — ssd_loss @966. -/
 def sqDiff (a b : α) : α := (a - b) * (a - b)
 
-/-- src: functional.py:ncc_loss @560-573 for one batch item of `n = C·X…` flattened elements. -/
+/-- src: functional.py:ncc_loss @563-578 for one batch item of `n = C·X…` flattened elements. -/
 def nccItem (n : Nat) (s t : Nat → α) (eps : α) : α :=
   let sm := sumTo n s / ((n : Nat) : α)                              -- source.mean(dim=1)
   let tm := sumTo n t / ((n : Nat) : α)
@@ -131,11 +131,28 @@ def nccItem (n : Nat) (s t : Nat → α) (eps : α) : α :=
   let a := sumTo n (fun i => x i * y i)
   let b := sumTo n (fun i => x i * x i)
   let c := sumTo n (fun i => y i * y i)
-  (-(a * a / (b * c + eps))) + ((1 : Nat) : α)                        -- @573
+  (-(a * a / (b * c + eps))) + ((1 : Nat) : α)                        -- @578
 
-/-- ncc_loss with reduction "none" before masking: one value per batch item. -/
+/-- ncc_loss with reduction "none", no mask: one value per batch item. -/
 def nccNone (n : Nat) (s t : Nat → α) (eps : α) : Nat → α :=
   fun k => nccItem n (fun i => s (k * n + i)) (fun i => t (k * n + i)) eps
+
+/-- src: functional.py:ncc_loss @569-578 for one batch item with a (broadcast, flattened) mask `m`:
+    weighted means `Σ s·m / Σ m`, centred images multiplied by the mask, then the same score. -/
+def nccItemM (n : Nat) (s t m : Nat → α) (eps : α) : α :=
+  let wsum := sumTo n m                                              -- @570
+  let sm := sumTo n (fun i => s i * m i) / wsum
+  let tm := sumTo n (fun i => t i * m i) / wsum
+  let x := fun i => (s i - sm) * m i                                 -- @571
+  let y := fun i => (t i - tm) * m i                                 -- @572
+  let a := sumTo n (fun i => x i * y i)
+  let b := sumTo n (fun i => x i * x i)
+  let c := sumTo n (fun i => y i * y i)
+  (-(a * a / (b * c + eps))) + ((1 : Nat) : α)                        -- @578
+
+/-- ncc_loss with reduction "none" and mask: one value per batch item. -/
+def nccNoneM (n : Nat) (s t m : Nat → α) (eps : α) : Nat → α :=
+  fun k => nccItemM n (fun i => s (k * n + i)) (fun i => t (k * n + i)) (fun i => m (k * n + i)) eps
 
 /-- `avg_pool(data, k, stride=1, padding=k//2, divisor_override=1)` at one output position whose
     in-bounds window is the index list `w` (zero padding contributes nothing). -/
@@ -144,36 +161,36 @@ def winSum (w : List Nat) (f : Nat → α) : α := lsum (w.map f)
 /-- `avg_pool(…, count_include_pad=False)`: divide by the number of in-bounds window elements. -/
 def winMean (w : List Nat) (f : Nat → α) : α := winSum w f / ((w.length : Nat) : α)
 
-/-- `source.sub(local_mean(source))` — lcc_loss @636-640. -/
+/-- `source.sub(local_mean(source))` — lcc_loss @640-644. -/
 def centered (win : Nat → List Nat) (s : Nat → α) : Nat → α := fun j => s j - winMean (win j) s
 
-/-- lcc_loss @642-646 at one output position with window `w`, given the centred images. -/
+/-- lcc_loss @646-650 at one output position with window `w`, given the centred images. -/
 def lccScore (w : List Nat) (x y : Nat → α) (eps : α) : α :=
   let a := winSum w (fun j => x j * y j)
   let b := winSum w (fun j => x j * x j)
   let c := winSum w (fun j => y j * y j)
   (-(a * a / (b * c + eps))) + ((1 : Nat) : α)
 
-/-- src: functional.py:lcc_loss @633-646, reduction "none", before masking, for an arbitrary
+/-- src: functional.py:lcc_loss @637-650, reduction "none", before masking, for an arbitrary
     family of windows `win i` (the box filter `boxWin` below in the code). -/
 def lccAt (win : Nat → List Nat) (s t : Nat → α) (eps : α) (i : Nat) : α :=
   lccScore (win i) (centered win s) (centered win t) eps
 
-/-- wlcc_loss @732-743 `local_mean(data, weight)`: plain window mean without weight, otherwise
+/-- wlcc_loss @736-747 `local_mean(data, weight)`: plain window mean without weight, otherwise
     `local_sum(data·w) / (local_sum(w) + ε)`. -/
 def wMean (w : List Nat) (f : Nat → α) (wt : Option (Nat → α)) (eps : α) : α :=
   match wt with
   | none => winMean w f
   | some g => winSum w (fun j => f j * g j) / (winSum w g + eps)
 
-/-- wlcc_loss @757-767: `x = source − local_mean(source, source_mask)`, then `x.mul_(mask)`. -/
+/-- wlcc_loss @761-771: `x = source − local_mean(source, source_mask)`, then `x.mul_(mask)`. -/
 def wlccCentered (win : Nat → List Nat) (s : Nat → α) (sw mk : Option (Nat → α)) (eps : α) : Nat → α :=
   let x0 := fun j => s j - wMean (win j) s sw eps
   match mk with
   | none => x0
   | some m => fun j => x0 j * m j
 
-/-- src: functional.py:wlcc_loss @757-773, reduction "none", before the final masking:
+/-- src: functional.py:wlcc_loss @761-777, reduction "none", before the final masking:
     weighted local means, `x.mul_(mask)`, `y.mul_(mask)`, local sums. -/
 def wlccAt (win : Nat → List Nat) (s t : Nat → α) (sw tw mk : Option (Nat → α)) (eps : α) (i : Nat) : α :=
   lccScore (win i) (wlccCentered win s sw mk eps) (wlccCentered win t tw mk eps) eps
@@ -200,41 +217,47 @@ def tverskyAt (S : Nat) (p y : Nat → α) (w : Option (Nat → α)) (alpha beta
   let num := inter + eps
   num / (num + fps + fns)
 
-/-- src: functional.py:mi_loss @1063-1073 for one batch item: Parzen responses, joint histogram,
+/-- src: functional.py:mi_loss @1065-1077 for one batch item: Parzen responses, joint histogram,
     normalisation, marginals.  `win x c` is the window response of intensity `x` at bin centre `c`,
-    `tiny` the literal `1e-5`; `B` bins, `S` samples.  Returns `(p_joint, p_input, p_target)`. -/
+    `tiny` the literal `1e-5`; `B` bins, `S` samples; with a mask `m` every sample's contribution to the
+    joint histogram is weighted by it (`pw_input.mul(mask)` @1067-1068, repair PENDING-F16BD).
+    Returns `(p_joint, p_input, p_target)`. -/
 def miProbs (win : α → α → α) (tiny : α) (B S : Nat) (cen : Nat → α)
-    (x y : Nat → α) : (Nat → Nat → α) × (Nat → α) × (Nat → α) :=
-  let hist := fun b b' => sumTo S (fun s => win (x s) (cen b) * win (y s) (cen b'))   -- bmm @1067
-  let norm := sumTo B (fun b => sumTo B (fun b' => hist b b')) + tiny                 -- @1068
-  let pj := fun b b' => hist b b' / norm                                              -- @1071
-  let pi := fun b => sumTo B (fun b' => pj b b')                                      -- sum(dim=2) @1072
-  let pt := fun b' => sumTo B (fun b => pj b b')                                      -- sum(dim=1) @1073
+    (x y : Nat → α) (m : Option (Nat → α)) : (Nat → Nat → α) × (Nat → α) × (Nat → α) :=
+  let hist := fun b b' =>                                                             -- bmm @1071
+    match m with
+    | none => sumTo S (fun s => win (x s) (cen b) * win (y s) (cen b'))
+    | some m => sumTo S (fun s => win (x s) (cen b) * m s * win (y s) (cen b'))
+  let norm := sumTo B (fun b => sumTo B (fun b' => hist b b')) + tiny                 -- @1072
+  let pj := fun b b' => hist b b' / norm                                              -- @1075
+  let pi := fun b => sumTo B (fun b' => pj b b')                                      -- sum(dim=2) @1076
+  let pt := fun b' => sumTo B (fun b => pj b b')                                      -- sum(dim=1) @1077
   (pj, pi, pt)
 
-/-- src: functional.py:mi_loss @1076-1078: entropies `(ent_input, ent_target, ent_joint)` with the
+/-- src: functional.py:mi_loss @1080-1082: entropies `(ent_input, ent_target, ent_joint)` with the
     logarithm `lg` supplied. -/
 def miEntropies (win : α → α → α) (lg : α → α) (tiny : α) (B S : Nat) (cen : Nat → α)
-    (x y : Nat → α) : α × α × α :=
-  let p := miProbs win tiny B S cen x y
+    (x y : Nat → α) (m : Option (Nat → α)) : α × α × α :=
+  let p := miProbs win tiny B S cen x y m
   let pj := p.1
   let pi := p.2.1
   let pt := p.2.2
-  let ei := -(sumTo B (fun b => pi b * lg (pi b + tiny)))                             -- @1076
-  let et := -(sumTo B (fun b => pt b * lg (pt b + tiny)))                             -- @1077
-  let ej := -(sumTo B (fun b => sumTo B (fun b' => pj b b' * lg (pj b b' + tiny))))   -- @1078
+  let ei := -(sumTo B (fun b => pi b * lg (pi b + tiny)))                             -- @1080
+  let et := -(sumTo B (fun b => pt b * lg (pt b + tiny)))                             -- @1081
+  let ej := -(sumTo B (fun b => sumTo B (fun b' => pj b b' * lg (pj b b' + tiny))))   -- @1082
   (ei, et, ej)
 
-/-- src: functional.py:mi_loss @1080-1083: mean over the batch of `N` items. -/
+/-- src: functional.py:mi_loss @1084-1087: mean over the batch of `N` items (`m`: mask broadcast to `(N, S)`). -/
 def miLossCore (win : α → α → α) (lg : α → α) (tiny : α) (normalized : Bool) (N B S : Nat)
-    (cen : Nat → α) (x y : Nat → α) : α :=
+    (cen : Nat → α) (x y : Nat → α) (m : Option (Nat → α)) : α :=
   let e := fun n => miEntropies win lg tiny B S cen (fun s => x (n * S + s)) (fun s => y (n * S + s))
+    (m.map (fun m s => m (n * S + s)))
   if normalized then
     ((2 : Nat) : α) - sumTo N (fun n => ((e n).1 + (e n).2.1) / (e n).2.2) / ((N : Nat) : α)
   else
     -(sumTo N (fun n => (e n).1 + (e n).2.1 - (e n).2.2) / ((N : Nat) : α))
 
-/-- mi_loss @1057-1061: Gaussian Parzen window `exp(−(x−c)²/(2σ²))·norm` with `exp` supplied. -/
+/-- mi_loss @1059-1063: Gaussian Parzen window `exp(−(x−c)²/(2σ²))·norm` with `exp` supplied. -/
 def parzen (ex : α → α) (twoSigmaSq norm : α) (x c : α) : α :=
   ex (-((x - c) * (x - c) / twoSigmaSq)) * norm
 
@@ -262,7 +285,7 @@ def smoothL1Fn (beta : α) (a b : α) : α :=
   let d := absv (a - b)
   if d < beta then half * d * d / beta else d - half * beta
 
-/-- ssd_loss @965-970 / elementwise_loss @1722-1727: divide by `norm` only when `norm > 0`. -/
+/-- ssd_loss @969-974 / elementwise_loss @1732-1737: divide by `norm` only when `norm > 0`. -/
 def applyNorm (norm : Option α) (v : List α) : List α :=
   match norm with
   | none => v
@@ -310,27 +333,32 @@ def Pointwise.fn : Pointwise α → α → α → α
   | .huber d => huberFn d
   | .smoothL1 b => smoothL1Fn b
 
-/-- src: functional.py:ssd_loss @929-971 (also mse_loss @903-926, which only forwards) and
-    elementwise_loss @1687-1728 (l1/mae/huber/smooth_l1 @779-900). -/
+/-- src: functional.py:ssd_loss @933-975 (also mse_loss @907-930, which only forwards) and
+    elementwise_loss @1697-1738 (l1/mae/huber/smooth_l1 @783-904). -/
 def pointwiseLoss (kind : Pointwise α) (red : Reduction) (x y : T α) (mask : Option (T α))
     (norm : Option α) : Except String (List α) := do
-  if x.shape ≠ y.shape then throw "err:value:shape"                    -- @960-961 / @1714-1715
+  if x.shape ≠ y.shape then throw "err:value:shape"                    -- @964-965 / @1724-1725
   let loss := fun i => kind.fn (x.data i) (y.data i)
   let _ ← maskedLoss x.shape loss mask                                 -- shape checks of masked_loss
   pure (applyNorm norm (pointwiseCore kind.fn red x.numel x.data y.data (mask.map (expandAs x.shape))))
 
-/-- src: functional.py:ncc_loss @530-576.  NB @574: the loss has already been reduced to shape
-    `(N,)` when `masked_loss` is called with the (image shaped) mask. -/
+/-- src: functional.py:ncc_loss @530-580 (repair PENDING-F16BD).  A mask is first broadcast to the image
+    shape by `masked_loss(torch.ones_like(source), mask, "ncc_loss")` @560-562 (same shape checks and
+    broadcasting as for the pointwise losses), flattened per item, and enters the item score as a weight;
+    the final reduction is the plain `reduce_loss(loss, reduction)` @579. -/
 def nccPrep (x y : T α) (mask : Option (T α)) (eps : α) : Except String (Nat × (Nat → α) × Option (Nat → α)) := do
   if x.shape ≠ y.shape then throw "err:value:shape"                    -- @557-558
   let N := x.shape.headD 0
   let n := prod (x.shape.drop 1)
-  let loss := nccNone n x.data y.data eps
-  let loss ← maskedLoss [N] loss mask                                  -- @574
-  pure (N, loss, mask.map (expandAs [N]))
+  match mask with
+  | none => pure (N, nccNone n x.data y.data eps, none)                -- @566-568
+  | some m =>
+    let me ← maskedLoss x.shape (fun _ => ((1 : Nat) : α)) (some m)    -- @560-562 `ones_like(source) * mask`
+    let ma := memoArr (N * n) me
+    pure (N, nccNoneM n x.data y.data (getM ma me) eps, none)          -- @569-578
 
 def nccLoss (red : Reduction) (x y : T α) (mask : Option (T α)) (eps : α) : Except String (List α) :=
-  finish red (nccPrep x y mask eps)                                    -- @575
+  finish red (nccPrep x y mask eps)                                    -- @579
 
 /-- in-bounds part of the window `[p − k/2, p − k/2 + k)` on an axis of `n` samples
     (`padding = k // 2`, `stride = 1`). -/
@@ -363,9 +391,9 @@ def poolCheck (shape ks : List Nat) : Except String Unit :=
   else if ks.length = 3 ∧ ((shape.drop 2).zip ks).any (fun (n, k) => n < k) then .error "err:runtime:pool3d-kernel"
   else .ok ()
 
-/-- src: functional.py:lcc_loss @579-649. -/
+/-- src: functional.py:lcc_loss @583-653. -/
 def lccPrep (x y : T α) (mask : Option (T α)) (ks : List Nat) (eps : α) : Except String (Nat × (Nat → α) × Option (Nat → α)) := do
-  if x.shape ≠ y.shape then throw "err:value:shape"                    -- @612-613
+  if x.shape ≠ y.shape then throw "err:value:shape"                    -- @620-621
   poolCheck x.shape ks
   let n := x.numel
   let wa := memoArr n (tensorWin x.shape ks)
@@ -373,14 +401,14 @@ def lccPrep (x y : T α) (mask : Option (T α)) (ks : List Nat) (eps : α) : Exc
   let xa := memoArr n (centered win x.data)
   let ya := memoArr n (centered win y.data)
   let loss := fun i => lccScore (win i) (getM xa (centered win x.data)) (getM ya (centered win y.data)) eps
-  let loss ← maskedLoss x.shape loss mask                              -- @647
+  let loss ← maskedLoss x.shape loss mask                              -- @651
   pure (n, loss, mask.map (expandAs x.shape))
 
 def lccLoss (red : Reduction) (x y : T α) (mask : Option (T α)) (ks : List Nat) (eps : α) :
     Except String (List α) :=
-  finish red (lccPrep x y mask ks eps)                                 -- @648
+  finish red (lccPrep x y mask ks eps)                                 -- @652
 
-/-- wlcc_loss @700-721: per-mask shape checks `(1|N, 1|C, …X)`. -/
+/-- wlcc_loss @704-725: per-mask shape checks `(1|N, 1|C, …X)`. -/
 def wlccMaskCheck (shape : List Nat) : Option (T α) → Except String Unit
   | none => .ok ()
   | some w =>
@@ -392,18 +420,18 @@ def wlccMaskCheck (shape : List Nat) : Option (T α) → Except String Unit
       else .ok ()
     | _, _ => .error "err:index:mask-ndim"
 
-/-- src: functional.py:wlcc_loss @652-776. -/
+/-- src: functional.py:wlcc_loss @656-780. -/
 def wlccPrep (x y : T α) (mask smask tmask : Option (T α)) (ks : List Nat) (eps : α) : Except String (Nat × (Nat → α) × Option (Nat → α)) := do
-  if x.shape ≠ y.shape then throw "err:value:shape"                    -- @697-698
+  if x.shape ≠ y.shape then throw "err:value:shape"                    -- @705-706
   wlccMaskCheck x.shape mask
   wlccMaskCheck x.shape smask
   wlccMaskCheck x.shape tmask
   poolCheck x.shape ks
   let n := x.numel
   let ex := fun (m : Option (T α)) => m.map (fun m => let a := memoArr n (expandAs x.shape m); getM a (expandAs x.shape m))
-  -- @745-752: `mask` doubles as source/target mask when those are both absent
+  -- @749-756: `mask` doubles as source/target mask when those are both absent
   let (sm, tm) := if mask.isSome ∧ smask.isNone ∧ tmask.isNone then (ex mask, ex mask) else (ex smask, ex tmask)
-  -- @763-764: default mask = product of source and target mask
+  -- @767-768: default mask = product of source and target mask
   let mk : Option (Nat → α) :=
     match mask, sm, tm with
     | none, some a, some b => some (fun i => a i * b i)
@@ -414,7 +442,7 @@ def wlccPrep (x y : T α) (mask smask tmask : Option (T α)) (ks : List Nat) (ep
   let ya := memoArr n (wlccCentered win y.data tm mk eps)
   let loss := fun i => lccScore (win i) (getM xa (wlccCentered win x.data sm mk eps))
     (getM ya (wlccCentered win y.data tm mk eps)) eps
-  -- @774-775: masked_loss / reduce_loss with the (possibly derived) mask, expanded
+  -- @778-779: masked_loss / reduce_loss with the (possibly derived) mask, expanded
   match mk with
   | none => pure (n, loss, none)
   | some m => pure (n, fun i => loss i * m i, some m)
@@ -564,43 +592,45 @@ def tverskyLoss [HasFloor α] [IntCast α] (pw : α → α) (red : Reduction) (x
     (alpha beta eps : α) (binarize : Bool) (gamma : Option α) : Except String (List α) :=
   finish red (tverskyLossPrep pw x y w alpha beta eps binarize gamma)                           -- @432
 
-/-- src: functional.py:mi_loss @1010-1049 without random sampling (`num_samples`,
-    `sample_ratio` both `None`): shape checks, flattening, masking.  The mask is multiplied into
-    both images @1047-1049 (masked-out samples become intensity 0, they are *not* removed from the
-    histogram).  Returns `(N, S, input, target)` flattened per batch item. -/
+/-- src: functional.py:mi_loss @1014-1053 without random sampling (`num_samples`,
+    `sample_ratio` both `None`): shape checks, flattening; the mask `(1|N, 1, …X)` is flattened and
+    broadcast over the batch (it weights the joint histogram, `miProbs`; the images themselves are
+    left alone — repair PENDING-F16BD).  Returns `(N, S, input, target, mask)` flattened per item. -/
 def miPrep (x y : T α) (mask : Option (T α)) (B : Nat) :
-    Except String (Nat × Nat × (Nat → α) × (Nat → α)) := do
-  if y.shape.length < 3 then throw "err:value:ndim"                    -- @1010-1011
-  if x.shape ≠ y.shape then throw "err:value:shape"                    -- @1012-1013
+    Except String (Nat × Nat × (Nat → α) × (Nat → α) × Option (Nat → α)) := do
+  if y.shape.length < 3 then throw "err:value:ndim"                    -- @1014-1015
+  if x.shape ≠ y.shape then throw "err:value:shape"                    -- @1016-1017
   let N := x.shape.headD 0
   let C := (x.shape.drop 1).headD 0
   let sp := x.shape.drop 2
   let S := prod sp
-  let fshape := [N, C, S]
+  match mask with
+  | none => pure ()
+  | some m =>
+    if m.shape.length < 3 ∨ m.shape.drop 2 ≠ sp ∨ (m.shape.drop 1).headD 0 ≠ 1 then
+      throw "err:value:mask-shape"                                     -- @1036-1039
+  -- `x.sub(bin_center)` @1062: `(N, C, S) − (B, 1)` only broadcasts for `C = 1` (or `C = B`)
+  if C ≠ 1 then
+    if C = B then throw "err:unmodelled:channels-equal-bins" else throw "err:runtime:channels"
   let m : Except String (Option (Nat → α)) :=
     match mask with
     | none => .ok none
     | some m =>
-      if m.shape.length < 3 ∨ m.shape.drop 2 ≠ sp ∨ (m.shape.drop 1).headD 0 ≠ 1 then
-        .error "err:value:mask-shape"                                  -- @1032-1035
-      else if m.shape.headD 0 ≠ 1 ∧ m.shape.headD 0 ≠ N then .error "err:runtime:mask-batch"
-      else .ok (some (expandAs fshape ⟨[m.shape.headD 0, 1, S], m.data⟩))   -- @1036, @1047-1049
+      -- `pw_input.mul(mask)` @1068: `(N, B, S) * (1|N, 1, S)`
+      if m.shape.headD 0 ≠ 1 ∧ m.shape.headD 0 ≠ N then .error "err:runtime:mask-batch"
+      else
+        let me := expandAs [N, 1, S] ⟨[m.shape.headD 0, 1, S], m.data⟩   -- @1040
+        let ma := memoArr (N * S) me
+        .ok (some (getM ma me))
   let m ← m
-  -- `x.sub(bin_center)` @1061: `(N, C, S) − (B, 1)` only broadcasts for `C = 1` (or `C = B`)
-  if C ≠ 1 then
-    if C = B then throw "err:unmodelled:channels-equal-bins" else throw "err:runtime:channels"
-  let xm := match m with | none => x.data | some m => fun i => x.data i * m i
-  let ym := match m with | none => y.data | some m => fun i => y.data i * m i
-  let xa := memoArr (N * S) xm
-  let ya := memoArr (N * S) ym
-  pure (N, S, getM xa xm, getM ya ym)
+  pure (N, S, x.data, y.data, m)
 
-/-- src: functional.py:mi_loss @974-1084 (`cen` are the bin centres as stored by the code:
+/-- src: functional.py:mi_loss @978-1088 (`cen` are the bin centres as stored by the code:
     `torch.linspace(vmin, vmax, num_bins)` in float32, cast to the input dtype). -/
 def miLoss (win : α → α → α) (lg : α → α) (tiny : α) (normalized : Bool) (x y : T α)
     (mask : Option (T α)) (B : Nat) (cen : Nat → α) : Except String α := do
-  let (N, S, xm, ym) ← miPrep x y mask B
-  pure (miLossCore win lg tiny normalized N B S cen xm ym)
+  let (N, S, xm, ym, m) ← miPrep x y mask B
+  pure (miLossCore win lg tiny normalized N B S cen xm ym m)
 
 end Wrappers
 
